@@ -398,7 +398,9 @@ pub fn compare(s: &Stream, cuts: &[usize], pending: bool, got: &Observed, want: 
         // (SETTINGS, ACKs, WINDOW_UPDATE) may be interleaved differently depending on when bytes arrived
         let norm = |b: &[u8]| {
             let f = h2_frames(b);
-            let mut streams: Vec<_> = f.iter().filter(|x| x.1 <= 1).cloned().collect();
+            // the length of a HEADERS frame depends on the HPACK encoding of the Date header (a literal when the
+            // wall-clock second ticked since the previous response, an index otherwise): not compared
+            let mut streams: Vec<_> = f.iter().filter(|x| x.1 <= 1).cloned().map(|mut x| { if x.1 == 1 { x.0 = 0; } x }).collect();
             streams.sort_by_key(|x| x.3);
             // flow-control and keep-alive frames depend on timing, not on the bytes
             let mut control: Vec<_> = f.iter().filter(|x| x.1 > 1 && x.1 != 8 && x.1 != 6).map(|x| (x.0, x.1, x.2, x.3)).collect();
